@@ -78,6 +78,10 @@ class World:
         self.history = []        # every executed op (roots included), for second-schedule runs
         self.armed = set()
         self.big = False
+        self.pending = []
+        self.step = 0
+        self.check_every = 1
+        self.poke = False
         self.big_done = False
         from . import findings
         self.open_guards = findings.open_ids()
